@@ -155,6 +155,7 @@ def find_memo_sites(fi: FuncInfo):
     """Yield (cache_text, key_expr, value_expr, node) for every memo idiom in the function."""
     fn = fi.node
     defs = _local_defs(fn)
+    fn_locals = _fn_locals(fn)
     sites = []
     # (b) setdefault
     for n in ast.walk(fn):
@@ -202,7 +203,8 @@ def find_memo_sites(fi: FuncInfo):
         if cache in nested and (cache, norm(key)) in guarded:
             outer, k1 = nested[cache]
             sites.append((outer, ast.Tuple(elts=[k1, key], ctx=ast.Load()), val, n))
-        elif (cachey(cache) and (cache, norm(key)) in lookups) or ((cache, norm(key)) in guarded and cache.startswith("self.")):
+        elif (cachey(cache) and (cache, norm(key)) in lookups) or ((cache, norm(key)) in guarded and (cache.startswith("self.") or (cache.isidentifier() and cache not in fn_locals))):
+            # a presence-tested table that outlives the call: an attribute of the object, a module-level or closure variable
             sites.append((cache, key, val, n))
     out = []
     for cache, key, val, n in sites:
@@ -505,6 +507,23 @@ def bad_extends_shared(obj, name):
     return obj
 
 
+_per_element = {}
+
+
+def bad_module_table(rule, domain):
+    key = (rule, domain.element())
+    if key not in _per_element:
+        _per_element[key] = rule.build(domain)
+    return _per_element[key]
+
+
+def good_module_table(rule, domain):
+    key = (rule, domain)
+    if key not in _per_element:
+        _per_element[key] = rule.build(domain)
+    return _per_element[key]
+
+
 def good_copies_shared(obj, name):
     rows, index = table_for(name)
     obj.rows = list(rows) + [(obj,)]
@@ -606,7 +625,7 @@ def positive_control(ctx):
     probe = Report("probe")
     check_memo_keys(ctx, probe, "probe", [name], min_sites=0)
     flagged = {f.scope.split(".")[-1] for f in probe.findings}
-    expected = {"bad", "bad_built_in_place", "bad_shared_b", "bad_singleton", "bad_shared_between_objects", "bad_extends_shared", "bad_nested"}
+    expected = {"bad", "bad_built_in_place", "bad_shared_b", "bad_singleton", "bad_shared_between_objects", "bad_extends_shared", "bad_nested", "bad_module_table"}
     if flagged != expected:
         raise AnalysisError(f"memo-key positive control: flagged {sorted(flagged)}, expected {sorted(expected)}")
 
